@@ -82,6 +82,11 @@ class Store:
                 cs.append(z3.Or(ok))
             elif pd.ty == 'QStringList':
                 cs.append(v.wf())
+            elif pd.ty.startswith('enum:'):
+                # values an object of the (unscoped) C++ enum type can hold: the bit range of its enumerators
+                from .env import ENUMS
+                mx = max(x for _, x in ENUMS[pd.ty[5:]])
+                cs.append(z3.ULE(v, z3.BitVecVal((1 << mx.bit_length()) - 1, 32)))
         return cs
 
     @staticmethod
